@@ -637,3 +637,40 @@ def np_concatenate(interp, args, kwargs, node):
     r.pointwise = True
     r.poly = None
     return interp.born(r)
+
+
+def _matrix_binop(interp, opn, a, b, node):
+    """cell-wise arithmetic of 2-D arrays with scalars / arrays of the same shape (no broadcasting between different shapes)"""
+    ma, mb = isinstance(a, VMatrix), isinstance(b, VMatrix)
+    if not (ma or mb) or opn not in ("Add", "Sub", "Mult"):
+        return None
+    if (ma and not (mb or isinstance(b, (VInt, VReal, VBool)))) or (mb and not (ma or isinstance(a, (VInt, VReal, VBool)))):
+        return None
+    import ast as _ast
+    op = getattr(_ast, opn)()
+    ref = a if ma else b
+    if ma and mb and not interp.spec_mode:
+        short = (interp.current_qualname or "").replace("pyrepseq.", "")
+        interp.ctx.oblige(f"{short}/call-pre[array shapes agree]@L{getattr(node, 'lineno', '?')}",
+                          z3.And(a.nrows == b.nrows, a.ncols == b.ncols), kind="call-pre", line=getattr(node, "lineno", None))
+    ca = (lambda r, c: a.cell(r, c)) if ma else (lambda r, c: a)
+    cb = (lambda r, c: b.cell(r, c)) if mb else (lambda r, c: b)
+    return interp.born(VMatrix(ref.nrows, ref.ncols, lambda r, c: interp.binop(op, ca(r, c), cb(r, c), node)))
+
+
+E.HOOKS["binop"].insert(0, _matrix_binop)
+
+
+@S.spec("matrix_of")
+def _matrix_of(interp, args, kwargs, node):
+    """matrix_of(n, m, f): the n x m array with cell (r, c) = f(r, c)"""
+    n, m, f = args
+
+    def cellf(r, c):
+        old_mode = interp.spec_mode
+        interp.spec_mode = True          # the cell expression is contract text, whenever it is evaluated
+        try:
+            return interp.call(f, [VInt(r), VInt(c)], {}, node)
+        finally:
+            interp.spec_mode = old_mode
+    return VMatrix(to_int(n), to_int(m), cellf)
